@@ -17,7 +17,7 @@ from sx import Str, Sym
 
 PROP = "C07"
 PROP_FILE = "C07_Ext"
-THEOREMS = ['c07_decimal_spec', 'c07_decimal_digit_table_irrelevant', 'c07_decimal_constructor', 'c07_decimal_cmp', 'c07_offset_exact', 'c07_duration_since_exact', 'c07_to_date_exact', 'c07_to_time_exact', 'c07_to_date_plus_to_time', 'c07_duration_to_exact', 'c07_rel_exact', 'c07_eq_by_value', 'c07_days_from_civil_correct', 'c07_in_range_partial', 'c07_duration_range_partial']
+THEOREMS = ['c07_decimal_spec', 'c07_decimal_digit_table_irrelevant', 'c07_decimal_constructor', 'c07_decimal_cmp', 'c07_offset_exact', 'c07_duration_since_exact', 'c07_to_date_exact', 'c07_to_time_exact', 'c07_to_date_plus_to_time', 'c07_duration_to_exact', 'c07_rel_exact', 'c07_eq_by_value', 'c07_days_from_civil_correct', 'c07_in_range_partial', 'c07_duration_range_partial', 'c07_duration_spec', 'c07_in_range', 'c07_loopback', 'c07_multicast', 'c07_days_from_civil_monotone', 'c07_days_from_civil_injective', 'c07_datetime_spec_partial', 'c07_ip_spec_partial']
 
 MANIFEST = {
     "text": "Executable Gallina parsers and operations for decimal/ip/datetime/duration transcribed from extensions/{decimal,ipaddr,datetime}.rs (regex recognisers, from_str semantics, checked arithmetic, std::net parser, civil-date arithmetic); parser characterisations and exactness of every operation proved in Coq for all strings / all values (props/C07_Ext.v); tied to /repo by differential execution of the extracted model against the evaluator on grammar-generated, boundary, single-character-mutated and exhaustively enumerated short constructor strings and on all pairs of boundary values for every operation.",
